@@ -151,6 +151,11 @@ IDIOMS = [
     # R6: `it.all(Zero::is_zero)` on a reversed slice iterator that has already been advanced
     ('R6.rev_digits_iter', r'let mut (\w+) = (\w+)\.iter\(\)\.rev\(\);', r'let mut \1 = shim::RevDigits::new(&\2);'),
     ('R6.rev_iter_all_zero', r'\b([ab]_it)\.all\(Zero::is_zero\)', r'\1.all_zero()'),
+    # R6: ASCII digit idioms of the formatter
+    ('R6.all_ascii_zero', r'([A-Za-z_][A-Za-z0-9_]*)\.iter\(\)\.all\(\|&d\| d == b\'0\'\)', r'shim::iter_all_ascii_zero(&\1)'),
+    ('R6.rposition_not_nine', r'([A-Za-z_][A-Za-z0-9_]*)\.iter\(\)\.rev\(\)\.position\(\|&d\| d != b\'9\'\)', r'shim::rposition_not_nine(&\1)'),
+    ('R2.split_first_ref', r'let \(&([a-z_0-9]+), ([a-z_0-9]+)\) = ([^;]*?)\.split_first\(\)\.unwrap_or\(\(&b\'0\', &\[\]\)\);',
+     r'let (\1__r, \2) = shim::split_first_or_zero(\3); let \1 = *\1__r;'),
     # R2 reference patterns
     ('R2.split_last_ref', r'let \(&([a-z_0-9]+), ([a-z_0-9]+)\) = ([^;]*?)\.split_last\(\)\.unwrap\(\);',
      r'let (\1__r, \2) = \3.split_last().unwrap(); let \1 = *\1__r;'),
